@@ -482,6 +482,7 @@ package leader
 //@   on store kvElection.watcherRunning as s when inspawn() set wrCleared = !s.value
 //@   on ret becomeFollower$1 assert C06+C18.watcher_flag_cleared_on_exit: wrCleared
 //@   on unlock kvElection.mu assert C03.claim_cleared_at_unlock: !e.isLeader
+//@   ensures C08.reports_cleared: result == cleared
 //@   ensures C19.cancelled_on_demotion: cleared ==> termCancelled
 //@   ghost stateL Int = 0
 //@   on lock kvElection.mu set stateL = e.state
@@ -681,7 +682,7 @@ package leader
 //@   on ret becomeFollower as r set cleared = r.cleared
 //@   on load kvElection.onDemote as l set demoteSet = l.value != nil
 //@   ensures C03.demotes: calls(becomeFollower) == 1
-//@   ensures C03.runs_demote_callback: demoteSet ==> calls(onDemote) == 1
+//@   ensures C03.runs_demote_callback: cleared && demoteSet ==> calls(onDemote) == 1
 //@   ensures C08.demote_iff_claim_cleared: calls(onDemote) == ((cleared && demoteSet) ? 1 : 0)
 
 //@ func (e *kvElection) handleHealthCheckFailure()
@@ -694,7 +695,7 @@ package leader
 //@   on ret becomeFollower as r set cleared = r.cleared
 //@   on load kvElection.onDemote as l set demoteSet = l.value != nil
 //@   ensures C12.demotes: calls(becomeFollower) == 1
-//@   ensures C12.runs_demote_callback: demoteSet ==> calls(onDemote) == 1
+//@   ensures C12.runs_demote_callback: cleared && demoteSet ==> calls(onDemote) == 1
 //@   ensures C08.demote_iff_claim_cleared: calls(onDemote) == ((cleared && demoteSet) ? 1 : 0)
 
 // ===========================================================================
@@ -734,7 +735,7 @@ package leader
 //@   on ret becomeFollower as r set cleared = r.cleared
 //@   on load kvElection.onDemote as l set demoteSet = l.value != nil
 //@   ensures C04.demotes: calls(becomeFollower) == 1
-//@   ensures C04.runs_demote_callback: demoteSet ==> calls(onDemote) == 1
+//@   ensures C04.runs_demote_callback: cleared && demoteSet ==> calls(onDemote) == 1
 //@   ensures C08.demote_iff_claim_cleared: calls(onDemote) == ((cleared && demoteSet) ? 1 : 0)
 
 // ===========================================================================
@@ -802,7 +803,9 @@ package leader
 //@   ensures C10.reevaluates_each_event: entry != nil && LenOf(EntryVal(entry)) != 0 && ParseOK(EntryVal(entry)) && !sawLeader && knownLeader == IDOf(EntryVal(entry)) && e.cfg.AllowPriorityTakeover && e.cfg.Priority > PrioOf(EntryVal(entry)) ==> spawns(handleWatchEvent$1) == 1
 //@   ensures C10.no_takeover_attempt_otherwise: spawns(handleWatchEvent$1) == 1 ==> e.cfg.AllowPriorityTakeover && ParseOK(EntryVal(entry)) && e.cfg.Priority > PrioOf(EntryVal(entry))
 //@   ensures C13.ignore_unparsable: entry != nil && LenOf(EntryVal(entry)) != 0 && !ParseOK(EntryVal(entry)) ==> calls(becomeFollower) == 0 && spawns(handleWatchEvent$1) == 0
-//@   ensures C08.demote_iff_claim_cleared: calls(onDemote) == (cleared ? 1 : 0)
+//@   ghost demoteSet Bool = false
+//@   on load kvElection.onDemote as l set demoteSet = l.value != nil
+//@   ensures C08.demote_iff_claim_cleared: calls(onDemote) == ((cleared && demoteSet) ? 1 : 0)
 
 // ===========================================================================
 // connection.go  (C11)
